@@ -5,6 +5,7 @@ package main
 import (
 	"go/token"
 	"go/types"
+	"os"
 	"sort"
 	"strings"
 
@@ -25,11 +26,15 @@ func init() {
 }
 
 func runC18(r *Run) {
+	if os.Getenv("OLINT_C18_PROBE") != "" {
+		c18IndexProbe(r)
+	}
 	checkRelock(r)
 	checkCoin(r)
 	checkSplit(r)
 	checkFallback(r)
 	checkErrFirst(r)
+	checkEnumIndex(r)
 	checkExitListing(r)
 }
 
@@ -517,7 +522,10 @@ func checkCoin(r *Run) {
 				return isMsgRoot(p, pa.Root) && len(pa.Fields) > 0 && pa.Fields[0] == f
 			}
 			free := func(v ssa.Value) bool {
-				return !derivesFrom(v, func(y ssa.Value) bool { pa := pathOf(y); return isMsgRoot(p, pa.Root) && len(pa.Fields) > 0 && pa.Fields[0] == f })
+				return !derivesFrom(v, func(y ssa.Value) bool {
+					pa := pathOf(y)
+					return isMsgRoot(p, pa.Root) && len(pa.Fields) > 0 && pa.Fields[0] == f
+				})
 			}
 			for _, pin := range []bool{false, true} {
 				sinks := map[ssa.Instruction]bool{}
@@ -776,7 +784,10 @@ func checkFallback(r *Run) {
 			}
 			// reachable only on the found edge
 			edges := condEdges(fn, func(cond ssa.Value, _ *ssa.If) int {
-				return boolCond(cond, func(y ssa.Value) bool { e, ok := y.(*ssa.Extract); return ok && e.Tuple == ssa.Value(lk) && e.Index == 1 })
+				return boolCond(cond, func(y ssa.Value) bool {
+					e, ok := y.(*ssa.Extract)
+					return ok && e.Tuple == ssa.Value(lk) && e.Index == 1
+				})
 			})
 			if len(edges) == 0 || reachWithout(fn, edges)[ret.Block()] {
 				bad = "returns the map element without testing that the route exists (nil handler on a miss)"
@@ -969,9 +980,13 @@ func checkErrFirst(r *Run) {
 			}
 			var edges []Edge
 			if errv != nil {
-				edges = append(edges, condEdges(fn, func(cond ssa.Value, _ *ssa.If) int { return nilCond(cond, func(y ssa.Value) bool { return y == ssa.Value(errv) }) })...)
+				edges = append(edges, condEdges(fn, func(cond ssa.Value, _ *ssa.If) int {
+					return nilCond(cond, func(y ssa.Value) bool { return y == ssa.Value(errv) })
+				})...)
 			}
-			edges = append(edges, condEdges(fn, func(cond ssa.Value, _ *ssa.If) int { return -nilCond(cond, func(y ssa.Value) bool { return y == ssa.Value(ptr) }) })...)
+			edges = append(edges, condEdges(fn, func(cond ssa.Value, _ *ssa.If) int {
+				return -nilCond(cond, func(y ssa.Value) bool { return y == ssa.Value(ptr) })
+			})...)
 			after := reachFromInstr(c, edges, nil)
 			bad := ssa.Instruction(nil)
 			for _, d := range derefs {
@@ -993,5 +1008,252 @@ func checkErrFirst(r *Run) {
 	}
 	if nCalls < 15 {
 		fail("C18.errfirst: only %d (pointer, error) lookups fed with message data found on the transaction paths", nCalls)
+	}
+}
+
+func c18IndexProbe(r *Run) {
+	p := r.P
+	roots := p.Roots()
+	reach := map[*ssa.Function]bool{}
+	for _, rn := range []string{"check", "deliver"} {
+		rs, _ := p.Reach(roots[rn])
+		for f := range rs {
+			reach[f] = true
+		}
+	}
+	for _, fn := range sortedFns(reach) {
+		if fn.Blocks == nil || !inRepo(fn) {
+			continue
+		}
+		allInstrs(fn, func(ins ssa.Instruction) {
+			var idx ssa.Value
+			switch x := ins.(type) {
+			case *ssa.IndexAddr:
+				idx = x.Index
+			case *ssa.Index:
+				idx = x.Index
+			default:
+				return
+			}
+			if _, isK := idx.(*ssa.Const); isK {
+				return
+			}
+			src := ""
+			sameQuantity(idx, func(y ssa.Value) bool {
+				pa := pathOf(y)
+				if isMsgRoot(p, pa.Root) && len(pa.Fields) > 0 {
+					src = "msg." + pa.FieldString()
+					return true
+				}
+				if par, ok := y.(*ssa.Parameter); ok && isIntegral(par.Type()) {
+					src = "param:" + par.Name()
+					return true
+				}
+				if len(pa.Fields) > 0 && isIntegral(y.Type()) {
+					if _, isPhi := y.(*ssa.Phi); !isPhi {
+						src = "field:" + pa.FieldString()
+						return true
+					}
+				}
+				return false
+			})
+			if src != "" {
+				println("IDX", fname(fn), src, p.ipos(ins))
+			}
+		})
+	}
+}
+
+// ---------------------------------------------------------------------------------------------
+// C18.index: an enumerated integer that indexes a fixed-length table is range-checked before it is stored.
+
+func constLenOf(v ssa.Value) (int64, bool) {
+	v = resolveLoad(v)
+	switch x := v.(type) {
+	case *ssa.MakeSlice:
+		return intConst(x.Len)
+	case *ssa.Slice:
+		if a, ok := x.X.(*ssa.Alloc); ok {
+			if at, ok := derefT(a.Type()).Underlying().(*types.Array); ok {
+				return at.Len(), true
+			}
+		}
+	case *ssa.Alloc:
+		if at, ok := derefT(x.Type()).Underlying().(*types.Array); ok {
+			return at.Len(), true
+		}
+	}
+	if at, ok := v.Type().Underlying().(*types.Array); ok {
+		return at.Len(), true
+	}
+	return 0, false
+}
+
+func repoEnumType(t types.Type) *types.Named {
+	n, ok := t.(*types.Named)
+	if !ok || n.Obj().Pkg() == nil || !strings.HasPrefix(n.Obj().Pkg().Path(), Mod) {
+		return nil
+	}
+	if b, ok := n.Underlying().(*types.Basic); !ok || b.Info()&types.IsInteger == 0 {
+		return nil
+	}
+	return n
+}
+
+func checkEnumIndex(r *Run) {
+	p := r.P
+	roots := p.Roots()
+	reach := map[*ssa.Function]bool{}
+	for _, rn := range []string{"check", "deliver", "begin", "end"} {
+		rs, _ := p.Reach(roots[rn])
+		for f := range rs {
+			reach[f] = true
+		}
+	}
+	type use struct {
+		t  *types.Named
+		l  int64
+		at ssa.Instruction
+		in *ssa.Function
+	}
+	var uses []use
+	for _, fn := range sortedFns(reach) {
+		if fn.Blocks == nil || !inRepo(fn) {
+			continue
+		}
+		allInstrs(fn, func(ins ssa.Instruction) {
+			ia, ok := ins.(*ssa.IndexAddr)
+			if !ok {
+				return
+			}
+			l, okL := constLenOf(ia.X)
+			if !okL {
+				return
+			}
+			var et *types.Named
+			sameQuantity(ia.Index, func(y ssa.Value) bool {
+				if n := repoEnumType(y.Type()); n != nil {
+					if _, isK := y.(*ssa.Const); !isK {
+						et = n
+						return true
+					}
+				}
+				return false
+			})
+			if et != nil {
+				uses = append(uses, use{et, l, ins, fn})
+			}
+		})
+	}
+	if len(uses) == 0 {
+		fail("C18.index: no enumerated integer used as an index of a fixed-length table found (expected the vote-opinion tally)")
+	}
+	done := map[string]bool{}
+	for _, u := range uses {
+		key := tname(u.t) + "|" + fname(u.in)
+		if done[key] {
+			continue
+		}
+		done[key] = true
+		// (1) the type's validator accepts exactly values inside the table
+		var errFn *ssa.Function
+		ms := p.SSA.MethodSets.MethodSet(u.t)
+		for i := 0; i < ms.Len(); i++ {
+			if ms.At(i).Obj().Name() == "Err" {
+				errFn = p.SSA.MethodValue(ms.At(i))
+			}
+		}
+		okErr := errFn != nil && errFn.Blocks != nil
+		if okErr {
+			// partial evaluation over values just outside the table: none of them may reach a nil return
+			par := errFn.Params[0]
+			first := errFn.Blocks[0].Instrs[0]
+			hasNil := false
+			for _, ret := range returnsOf(errFn) {
+				if returnMayBeSuccess(ret) {
+					hasNil = true
+				}
+			}
+			if !hasNil {
+				okErr = false
+			}
+			for _, k := range []int64{-2, -1, u.l, u.l + 1, 1000} {
+				env := func(v ssa.Value) (int64, bool) {
+					if v == ssa.Value(par) {
+						return k, true
+					}
+					return 0, false
+				}
+				for ins := range reachUnderEnv(first, env, nil) {
+					if ret, isRet := ins.(*ssa.Return); isRet && returnMayBeSuccess(ret) {
+						okErr = false
+					}
+				}
+			}
+		}
+		r.Check(okErr, "C18.index", tname(u.t)+".Err", "the validator of "+tname(u.t)+" accepts only values inside the table it indexes (length "+itoa(u.l)+", in "+fname(u.in)+")", "for -2, -1, "+itoa(u.l)+", "+itoa(u.l+1)+", 1000 no nil return is reachable (constant partial evaluation of Err)",
+			"a value of "+tname(u.t)+" outside [0,"+itoa(u.l)+") passes its Err() validator (or there is none) and is later used as an index of a table of that length: index out of range panics and the panic handler closes the application", p.ipos(u.at))
+		if errFn == nil {
+			continue
+		}
+		// (2) every handler stores a message field of that type only behind the validator
+		seenEntry := map[*ssa.Function]bool{}
+		nH := 0
+		for _, h := range p.Handlers() {
+			entry := runFnOf(h.Deliver)
+			if entry == nil || seenEntry[entry] {
+				continue
+			}
+			seenEntry[entry] = true
+			isField := func(v ssa.Value) bool {
+				return sameQuantity(v, func(y ssa.Value) bool {
+					pa := pathOf(y)
+					return isMsgRoot(p, pa.Root) && len(pa.Fields) > 0 && types.Identical(y.Type(), u.t)
+				})
+			}
+			sinks := map[ssa.Instruction]bool{}
+			for _, fn := range handlerBody(entry) {
+				allInstrs(fn, func(ins ssa.Instruction) {
+					c, ok := ins.(*ssa.Call)
+					if !ok {
+						return
+					}
+					sc := c.Call.StaticCallee()
+					if sc == nil || sc == errFn || fnPkg(sc) == fnPkg(fn) || sc.Signature.Recv() != nil && types.Identical(sc.Signature.Recv().Type(), u.t) {
+						return
+					}
+					for _, a := range c.Call.Args {
+						if types.Identical(a.Type(), u.t) && isField(a) {
+							sinks[ins] = true
+						}
+					}
+				})
+			}
+			if len(sinks) == 0 {
+				continue
+			}
+			nH++
+			g := &CallGuard{Name: "value validated", Callees: []string{fname(errFn)}, ErrOnly: true, ArgOK: func(c *ssa.Call) bool { return isField(c.Call.Args[0]) }}
+			m := &MustPass{P: p, Scope: samePkgScope(entry), Guard: g, IsSink: func(fn *ssa.Function, ins ssa.Instruction) bool { return sinks[ins] }}
+			exposed := m.Exposed(entry)
+			construct := "a " + tname(u.t) + " taken from the message is validated before it is stored"
+			if len(exposed) == 0 {
+				r.OK("C18.index", h.Name, construct, "behind "+fname(errFn)+" == nil in "+fname(entry))
+				continue
+			}
+			okV := false
+			if h.Validate != nil && h.Validate.Blocks != nil {
+				mv := &MustPass{P: p, Scope: samePkgScope(h.Validate), Guard: g, IsSink: successReturns(h.Validate)}
+				okV = len(mv.Exposed(h.Validate)) == 0 && mv.Sinks > 0
+			}
+			if okV {
+				r.OK("C18.index", h.Name, construct, "on every path to Validate's success return (effective behind C04.gate)")
+				continue
+			}
+			r.Viol("C18.index", h.Name, construct, "the message's "+tname(u.t)+" reaches "+calleeName(exposed[0].Instr)+" without passing "+fname(errFn)+": an out-of-range value is stored and later indexes a table of length "+itoa(u.l), p.ipos(exposed[0].Instr), exposed[0].Chain)
+		}
+		if nH == 0 {
+			r.Info("C18.index", tname(u.t), "handlers storing a message field of this type", "none")
+		}
 	}
 }
